@@ -339,6 +339,11 @@ func (bridge *ExprBridge) evaluateStringConcatenation(expression string, data ma
 	if !strings.Contains(expression, "+") {
 		return nil, fmt.Errorf("not a concatenation expression")
 	}
+	// Only concatenate when an operand really is a string (literal or string-valued
+	// field). Otherwise `a + b` over NULL operands would yield "" instead of NULL.
+	if !bridge.isStringConcatenationExpression(expression, data) {
+		return nil, fmt.Errorf("not a concatenation expression")
+	}
 
 	// 简单的字符串拼接解析器
 	// 支持格式: field1 + 'literal' + field2 或 field1 + "_" + field2
